@@ -278,6 +278,9 @@ pub struct World {
     drops: RefCell<HashMap<usize, Rc<std::cell::Cell<usize>>>>,
     tracks: RefCell<HashMap<usize, ManuallyDrop<loom::alloc::Track<()>>>>,
     raws: RefCell<HashMap<usize, *mut u8>>,
+    /// open read / write sections of cells: (loom thread, cell) ↦ pointer guard
+    rptrs: RefCell<HashMap<(usize, usize), ManuallyDrop<loom::cell::ConstPtr<i128>>>>,
+    wptrs: RefCell<HashMap<(usize, usize), ManuallyDrop<loom::cell::MutPtr<i128>>>>,
     pub futures: Vec<crate::extras::FutureState>,
     /// waker clones held by threads: (loom thread, future) ↦ waker
     pub held: RefCell<HashMap<(usize, usize), std::task::Waker>>,
@@ -321,6 +324,8 @@ impl World {
             drops: Default::default(),
             tracks: Default::default(),
             raws: Default::default(),
+            rptrs: Default::default(),
+            wptrs: Default::default(),
             futures,
             held: Default::default(),
         }
@@ -460,6 +465,29 @@ fn exec_op(w: &Rc<World>, tid: usize, op: &Op) -> Ret {
         Op::Crd(c) => Ret::Val(w.cells[*c].with(|p| unsafe { *p })),
         Op::Cwr(c, v) => {
             w.cells[*c].with_mut(|p| unsafe { *p = *v });
+            Ret::Unit
+        }
+        Op::CrdB(c) => {
+            // `let p = cell.get(); *p.deref()`: the read section stays open until `crde`
+            let p = w.cells[*c].get();
+            let v = unsafe { *p.deref() };
+            w.rptrs.borrow_mut().insert((tid, *c), ManuallyDrop::new(p));
+            Ret::Val(v)
+        }
+        Op::CrdE(c) => {
+            let p = w.rptrs.borrow_mut().remove(&(tid, *c)).expect("harness: crde without crdb");
+            drop(ManuallyDrop::into_inner(p));
+            Ret::Unit
+        }
+        Op::CwrB(c, v) => {
+            let p = w.cells[*c].get_mut();
+            unsafe { *p.deref() = *v };
+            w.wptrs.borrow_mut().insert((tid, *c), ManuallyDrop::new(p));
+            Ret::Unit
+        }
+        Op::CwrE(c) => {
+            let p = w.wptrs.borrow_mut().remove(&(tid, *c)).expect("harness: cwre without cwrb");
+            drop(ManuallyDrop::into_inner(p));
             Ret::Unit
         }
         Op::Lock(m) => {
